@@ -4,6 +4,7 @@ import CssVerif.Lemmas.NumStr
 import CssVerif.Model.NumF64
 import CssVerif.Lemmas.NumF64
 import CssVerif.Lemmas.NumPV
+import CssVerif.Lemmas.NumF64Ops
 /-!
 # C18 — value normalisation never changes what a value denotes
 
@@ -140,7 +141,7 @@ example : roundTrip Prefs.default .number (cps "x") = .error .indexError := by d
 `roundTripF64` evaluates the serializer's number operations on IEEE-754 doubles, as CPython does; it agrees with
 the implementation on every literal of every run (correspondence, no domain restriction). The theorems above are
 about the exact layer `roundTrip`. Full statement of the bridge (validated by the driver on every in-domain literal
-of every run — 134 000 per quick run — but not yet proved in Lean, see docs/C18.md):
+of every run — 134 000 per quick run; proved in Lean below 2^33, see `f64_bridge_partial`):
 
     theorem f64_bridge (l : Lit) (h : l.Wf) (h6 : (l.fp.getD []).length ≤ 6)
         (hr : if E.allZero (l.fp.getD []) then natOfDigits l.ip ≤ 2^53 else natOfDigits l.ip < 2^33) :
@@ -150,16 +151,25 @@ What IS proved of the bridge (wave 3: the window itself, not only its core):
 * `f64_conversion_half_ulp` — the conversion of the model (`nearestF64`, the function the driver runs against
   CPython's `float()` on every literal) returns, for EVERY `num / den`, a double within half a unit in the last place,
   whatever exponent it chose;
-* `f64_window_exponent` — a normal double that is the conversion of a decimal with at most six fraction digits and
-  value below 2^33 has exponent ≤ -20 (because `10^6 < 2^20`): the bound 2^33 of `C18-float-digits` is exactly where
-  this stops;
-* `f64_pctF_window_partial` — hence `'%f'` of the double of every such literal prints exactly the literal's value on
-  six places (no closeness hypothesis any more: it is derived from `nearestF64` itself);
+* `f64_window_normal` — for `0 < num / den < 2^33`, `den < 2^20` the exponent selection (`chooseExp`, `Nat.log2`)
+  yields a normal double (`2^52 ≤ m`) with a negative exponent;
+* `f64_window_exponent` — such a double of a decimal with at most six fraction digits has exponent ≤ -20 (because
+  `10^6 < 2^20`): the bound 2^33 of `C18-float-digits` is exactly where this stops;
+* `f64_pctF_window` — hence, for EVERY non-zero literal with at most six fraction digits below 2^33, `'%f'` of the
+  double prints exactly the literal's value on six places (no hypothesis on the double);
 * `f64_sixth_decimal_partial` — the numerical core used by the above.
-Missing for the full `f64_bridge`: that the double of a non-zero literal in the window is normal with a negative
-exponent (`2^52 ≤ m`, `e < 0`: the exponent selection `chooseExp` with `Nat.log2`; hypotheses of
-`f64_pctF_window_partial`, true on every literal of every run), the same argument for `== 0`, `== int(x)`,
-`-1 < x < 1`, `str(int(x))`, and that `natToDigits` of the two halves of `n · 10^(6-k)` spells the literal's digits.
+* `f64_predicates_window`, **`f64_bridge_fraction`** — the predicates `== 0`, `-1 < x < 1`, `== int(x)` on the double
+  agree with the exact layer, `str(n)` of the model spells the digits (`natToDigits_spell`), `'%f'` on the double is
+  the exact layer's `'%f'` as a text (`pctF_eq_window`), hence `roundTripF64 = roundTrip` for every literal with a
+  non-zero fraction (≤ 6 digits) and integer part < 2^33: **the fraction half of `f64_bridge` is proved**.
+* **`f64_bridge_partial`** — together with the integral and the zero literals with a point (`toF64_integral_window`:
+  the conversion of an integer below 2^33 is exact; `str(int(x))` spells its digits): `roundTripF64 = roundTrip` for
+  EVERY literal with at most six fraction digits and integer part below 2^33 (below 2^51 when the fraction is all
+  zeros); `number_written_canonical_f64` transfers
+  T18.1a to the binary64 layer.
+Missing for the full `f64_bridge`: only the literals with an all-zero fraction and an integer part in `[2^51, 2^53]`
+(e.g. `4503599627370496.0`): there the exponent selection lemma `chooseExp_window_gen` (negative exponents, quotients
+below 2^51) has to be extended to non-negative exponents. Validated by the driver on every in-domain literal of every run.
 
 Outside that window the implementation really is lossy: -/
 
@@ -192,16 +202,75 @@ theorem f64_window_exponent (n k m j : Nat) (hk : k ≤ 6) (hj : 0 < j) (hm : 2 
     (hn : n < 2 ^ 33 * 10 ^ k) (h : nearestF64 n (10 ^ k) = some (m, -(j : Int))) : 20 ≤ j :=
   window_exponent n k m j hk hj hm hn h
 
-/-- the `'%f'` step of `f64_bridge` on the whole window (partial: normality and sign of the exponent are hypotheses,
-see above): for every literal with digits `n` and `k ≤ 6` fraction digits, value below `2^33`, the double CPython
-holds is printed by `'%f'` as exactly `n · 10^(6-k)` on six places — the literal's value, no digit changed -/
-theorem f64_pctF_window_partial (neg : Bool) (n k m j : Nat) (hk : k ≤ 6) (hj : 0 < j) (hm : 2 ^ 52 ≤ m)
-    (hn : n < 2 ^ 33 * 10 ^ k) (h : nearestF64 n (10 ^ k) = some (m, -(j : Int))) :
-    F.pctF { neg := neg, m := m, e := -(j : Int) } =
-      (if neg then [cMinus] else []) ++ natToDigits (n * 10 ^ (6 - k) / 10 ^ 6) ++ cDot ::
-        (List.replicate (6 - (natToDigits (n * 10 ^ (6 - k) % 10 ^ 6)).length) cZero ++
-          natToDigits (n * 10 ^ (6 - k) % 10 ^ 6)) :=
-  pctF_in_window neg n k m j hk hj hm hn h
+/-- inside the window the conversion returns a normal double with a negative exponent (the exponent selection
+`chooseExp` with `Nat.log2`, for all `0 < num / den < 2^33`, `den < 2^20`) -/
+theorem f64_window_normal (num den : Nat) (hnum : 0 < num) (hden : 0 < den) (hwin : num < 2 ^ 33 * den)
+    (hsmall : den < 2 ^ 20) :
+    ∃ m j : Nat, nearestF64 num den = some (m, -(j : Int)) ∧ 0 < j ∧ 2 ^ 52 ≤ m :=
+  nearestF64_window num den hnum hden hwin hsmall
+
+/-- **the `'%f'` step of `f64_bridge` on the whole window** (no hypothesis on the double any more): for every
+non-zero literal `sign ip . fp` with at most six fraction digits and value below `2^33`, `float()` of the model
+returns a double and `'%f'` of it is exactly the literal's value `n · 10^(6-k)` on six places — integer digits,
+the point, six fraction digits; no digit is changed anywhere in the window -/
+theorem f64_pctF_window (sign ip fp : List Nat) (hk : fp.length ≤ 6) (hn0 : natOfDigits (ip ++ fp) ≠ 0)
+    (hn : natOfDigits (ip ++ fp) < 2 ^ 33 * 10 ^ fp.length) :
+    ∃ x : F64, toF64 sign ip fp = some x ∧
+      F.pctF x =
+        (if sign == [cMinus] then [cMinus] else []) ++
+          natToDigits (natOfDigits (ip ++ fp) * 10 ^ (6 - fp.length) / 10 ^ 6) ++ cDot ::
+          (List.replicate (6 - (natToDigits (natOfDigits (ip ++ fp) * 10 ^ (6 - fp.length) % 10 ^ 6)).length) cZero ++
+            natToDigits (natOfDigits (ip ++ fp) * 10 ^ (6 - fp.length) % 10 ^ 6)) :=
+  toF64_pctF_window sign ip fp hk hn0 hn
+
+example : (cps "999999").length ≤ 6 ∧ natOfDigits (cps "8589934591" ++ cps "999999") ≠ 0 ∧
+    natOfDigits (cps "8589934591" ++ cps "999999") < 2 ^ 33 * 10 ^ (cps "999999").length := by decide +kernel
+
+/-- the predicates of `do_css_Value` on the double — `== 0`, `-1 < x < 1`, and `== int(x)` when the fraction is not
+zero — agree with the exact layer for every non-zero literal in the window (they choose the branch that is run) -/
+theorem f64_predicates_window (v : DimVal) (f : List Nat) (hfp : v.fp = some f) (hip : Digits v.ip) (hf : Digits f)
+    (hk : f.length ≤ 6) (hn0 : natOfDigits (v.ip ++ f) ≠ 0) (hn : natOfDigits (v.ip ++ f) < 2 ^ 33 * 10 ^ f.length) :
+    f64Ops.isZero v = exactOps.isZero v ∧ f64Ops.absLtOne v = exactOps.absLtOne v ∧
+      (E.allZero f = false → f64Ops.isIntegral v = exactOps.isIntegral v) :=
+  f64Ops_predicates_window v f hfp hip hf hk hn0 hn
+
+/-- **`f64_bridge`, fraction half — the window `C18-float-digits` leaves is exact**: for EVERY well-formed literal with
+a non-zero fraction of at most six digits and an integer part below `2^33`, every unit, every preference record, the
+text CPython's float arithmetic writes (binary64 layer: `float()`, `== 0`, `== int(x)`, `-1 < x < 1`, `'%f'`) is the
+text the exact layer writes — so `number_written_canonical`, `number_denotes`, `number_idempotent` … hold for what the
+implementation computes there, not only for the exact layer. (Full `f64_bridge` = this + the integral half, below.) -/
+theorem f64_bridge_fraction (l : Lit) (h : l.Wf) (p : Prefs) (typ : NumType) (f : List Nat) (hfp : l.fp = some f)
+    (hk : f.length ≤ 6) (hfz : E.allZero f = false) (hwin : natOfDigits l.ip < 2 ^ 33) (hov : l.tooLarge = false) :
+    roundTripF64 p typ l.text = roundTrip p typ l.text :=
+  roundTripF64_eq_fraction h p typ f hfp hk hfz hwin hov
+
+/-- **`f64_bridge` below `2^33`, below `2^51` for an all-zero fraction** (partial only in this: literals with an
+all-zero fraction and an integer part in `[2^51, 2^53]` are not covered; full statement above): for EVERY well-formed
+literal with at most six fraction digits — zero, integral or not, with or without `.` — every unit and every
+preference record, the binary64 layer (what CPython computes, tied to the implementation on every literal of every
+run) writes exactly what the exact layer writes -/
+theorem f64_bridge_partial (l : Lit) (h : l.Wf) (p : Prefs) (typ : NumType)
+    (h6 : (l.fp.getD []).length ≤ 6)
+    (hwin : natOfDigits l.ip < (if E.allZero (l.fp.getD []) then 2 ^ 51 else 2 ^ 33)) (hov : l.tooLarge = false) :
+    roundTripF64 p typ l.text = roundTrip p typ l.text :=
+  roundTripF64_eq_window h p typ h6 hwin hov
+
+/-- consequence: T18.1a holds for what the implementation's float arithmetic computes, not only for the exact layer:
+in the window the binary64 layer writes the canonical literal -/
+theorem number_written_canonical_f64 (l : Lit) (h : l.Wf) (p : Prefs) (typ : NumType)
+    (hsp : isBlank p.spacer = true) (h6 : (l.fp.getD []).length ≤ 6)
+    (hwin : natOfDigits l.ip < (if E.allZero (l.fp.getD []) then 2 ^ 51 else 2 ^ 33)) (hov : l.tooLarge = false) :
+    roundTripF64 p typ l.text = .ok (canonLit p.omitLeadingZero l).text := by
+  rw [f64_bridge_partial l h p typ h6 hwin hov]
+  exact roundTrip_canon h p typ hsp h6 hov
+
+/-- the hypotheses are satisfiable at the upper edge of the window: `8589934591.999999px` -/
+example : (⟨[], cps "8589934591", some (cps "999999"), cps "px"⟩ : Lit).Wf ∧ (cps "999999").length ≤ 6 ∧
+    E.allZero (cps "999999") = false ∧ natOfDigits (cps "8589934591") < 2 ^ 33 ∧
+    (⟨[], cps "8589934591", some (cps "999999"), cps "px"⟩ : Lit).tooLarge = false := by
+  refine ⟨⟨by decide, by unfold Digits; decide, ?_, by decide, by decide, by decide⟩, by decide, by decide,
+    by decide +kernel, by decide +kernel⟩
+  intro f hf; injection hf with hf; subst hf; exact ⟨by unfold Digits; decide, by decide⟩
 
 /-- the hypotheses are satisfiable — `8589934591.999999` (the largest six-place decimal below 2^33) has the normal
 double `9007199254740991 · 2^-20` (exponent exactly at the bound) — and are not met just above:
@@ -392,6 +461,26 @@ theorem string_uri_leaves_plain (ops : NumOps) (p : Prefs) (hsp : isBlank p.spac
   · intro t h
     simp only [Comp.text, (fmtSimple_quoted p hsp v).2] at h
     injection h with h; subst h; exact plain_helperUri v
+
+/-- the hypothesis on the leaves holds for every number the number theorems cover: a well-formed literal with at most
+six fraction digits whose unit has no blank is written (exact layer, `number_written_canonical`) as a text with a
+digit, starting with its sign, a digit or the point and ending with a digit or the last character of the unit -/
+theorem number_leaves_plain (l : Lit) (h : l.Wf) (p : Prefs) (typ : NumType) (hsp : isBlank p.spacer = true)
+    (h6 : (l.fp.getD []).length ≤ 6) (hov : l.tooLarge = false) (hu : ∀ c ∈ l.unit, c ≠ 0x20) :
+    Comp.LeavesPlain exactOps p (.num typ l.text) :=
+  num_leaf_plain h p typ hsp h6 hov hu
+
+/-- … and for every identifier that is an ordinary word itself (it is written unchanged) -/
+theorem ident_leaves_plain (ops : NumOps) (p : Prefs) (hsp : isBlank p.spacer = true) (v : List Nat) (hv : Plain v) :
+    Comp.LeavesPlain ops p (.simple .ident v) := by
+  intro t ht
+  simp only [Comp.text, fmtSimple, outValue_outAppend_text p hsp v .ident hv.punct (by decide) false] at ht
+  injection ht with ht; subst ht; exact hv
+
+example : (⟨[cPlus], cps "0", some (cps "50"), cps "PX"⟩ : Lit).Wf ∧
+    ∀ c ∈ (⟨[cPlus], cps "0", some (cps "50"), cps "PX"⟩ : Lit).unit, c ≠ 0x20 := by
+  refine ⟨⟨by decide, by unfold Digits; decide, ?_, by decide, by decide, by decide⟩, by decide⟩
+  intro f hf; injection hf with hf; subst hf; exact ⟨by unfold Digits; decide, by decide⟩
 
 /-- the separators are the only place where a spacer preference shows: with two preference records that agree on
 `omitLeadingZero` / `minimizeColorHash` the renderings of a comma-free, slash-free pair of leaves differ exactly in the
